@@ -8,7 +8,7 @@ BUDGET_S = {'quick': 90, 'thorough': 180}
 FLOORS = {
     'quick': {'distinct_nontrivial': 600, 'feature:factored(m>=50)': 300, 'feature:n==m': 100, 'feature:n==0': 100,
               'feature:x=lit': 50, 'feature:x=term': 200, 'feature:x=rule': 50, 'feature:x=group': 50, 'feature:x=template-arg': 50,
-              'feature:x=in-terminal': 50, 'feature:x=alt-group': 50, 'feature:x=in-terminal-seq': 50, 'feature:op?*+': 60, 'feature:parser=lalr': 300, 'feature:parser=earley': 200,
+              'feature:x=in-terminal': 50, 'feature:x=alt-group': 50, 'alt-group-below-factoring-threshold': 16, 'feature:x=in-terminal-seq': 50, 'feature:op?*+': 60, 'feature:parser=lalr': 300, 'feature:parser=earley': 200,
               'monitor:small_factors-contract': 50, 'feature:accepted': 400, 'feature:rejected': 400},
     'thorough-unused': {'distinct_nontrivial': 40000, 'feature:factored(m>=50)': 20000, 'monitor:small_factors-contract': 5000},
 }
@@ -199,6 +199,10 @@ def run_batch(ctx):
             kind = KINDS[(ctx.batch + '?*+'.index(op)) % len(KINDS)]
             for parser, lexer in (('lalr', 'contextual'), ('earley', 'dynamic')):
                 check_pair(ctx, kind, 0, 0, op, parser, lexer, [0, 1, 2, 3, 7, 20])
+        # a group with alternatives below the factoring threshold: k**n expansions if the copies are multiplied out
+        n, m = [(20, 20), (16, 24), (40, 40), (30, 49), (12, 13), (49, 49), (0, 30), (24, 25)][ctx.batch % 8]
+        check_pair(ctx, 'alt-group', n, m, '~', ['lalr', 'earley'][ctx.batch % 2], ['contextual', 'basic'][ctx.batch % 2], ks_for(n, m, rng))
+        ctx.count('alt-group-below-factoring-threshold')
     else:
         # every 0<=n<=m<=140 for LALR+terminal, split over the batches
         allp = [(n, m) for n in range(0, 141) for m in range(max(n, 1), 141)]
